@@ -188,6 +188,22 @@ Dev_C03_AdductElectronCount(ev) ==
            tol == IF mono THEN Micro(100) ELSE FAdd(Micro(1000), Ppm5(ev.modMass)) IN
        FWithin(FSub(ev.massRes, FMulInt(Electron, AdductsExcessElectrons(AgreeAdducts(ev)))), viaComp, tol)
 
+(* C03_AlternativePrecedence: for a modification written with alternatives ("+42.5|Acetyl", "Obs:+79.978|Phospho")  *)
+(* mass() takes the FIRST alternative that has a mass, comp()/comp_mass() the first that has a composition - so     *)
+(* when a numeric alternative precedes a named one the two calculators weigh different alternatives.               *)
+(* Exactly: removing, per such modification, (first-alternative mass - composition-alternative mass) x multiplier   *)
+(* from mass() restores the agreement.  Judged on terminal / residue modifications of the precursor.               *)
+LocalMods(A) == A.nterm \o A.cterm \o FoldLeft(LAMBDA acc, e : acc \o e.mods, <<>>, A.internal)
+AltGap(m, mono) == FMulInt(FSub(SemMass(Sem(m.v), mono), SemMass(SemPref(m.v), mono)), m.m)
+Dev_C03_AlternativePrecedence(ev) ==
+    /\ ev.k = "agree" /\ ev.out = "ret" /\ ev.ion = "p" /\ Comp8Resolvable(ev.comp, ev.mono)
+    /\ LET ms == LocalMods(ev.A)
+           gap == FSum([ q \in 1..Len(ms) |-> AltGap(ms[q], ev.mono) ])
+           viaComp == FAdd(Comp8Mass(ev.comp, ev.mono), ev.delta)
+           tol == IF ev.mono THEN Micro(100) ELSE FAdd(Micro(1000), Ppm5(ev.modMass)) IN
+       /\ \E q \in 1..Len(ms) : Sem(ms[q].v) # SemPref(ms[q].v)
+       /\ FWithin(FSub(ev.massRes, gap), viaComp, tol)
+
 (* C18_PerResidueExtras: condense_to_mass_mods measures each residue's shift on a one-residue copy of the peptide *)
 (* that still carries everything that is not a residue or explicit terminal modification: unknown-position and    *)
 (* interval modifications, static rules for N-Term / C-Term, the charge with its carriers, and (for labels on H   *)
@@ -222,7 +238,9 @@ Dev_C18_PerResidueExtras(ev) ==
 Dev(ev) == IF ev.k = "condense"
            THEN (IF "C18_PerResidueExtras" \in Devs /\ Dev_C18_PerResidueExtras(ev) THEN "C18_PerResidueExtras" ELSE "")
            ELSE IF ev.k \in {"agree", "estimate"}
-           THEN (IF "C03_AdductElectronCount" \in Devs /\ Dev_C03_AdductElectronCount(ev) THEN "C03_AdductElectronCount" ELSE "")
+           THEN (IF "C03_AdductElectronCount" \in Devs /\ Dev_C03_AdductElectronCount(ev) THEN "C03_AdductElectronCount"
+                 ELSE IF "C03_AlternativePrecedence" \in Devs /\ Dev_C03_AlternativePrecedence(ev) THEN "C03_AlternativePrecedence"
+                 ELSE "")
            ELSE IF ev.k # "mass" THEN ""
            ELSE IF "C02_AdductElectronCount" \in Devs /\ Dev_C02_AdductElectronCount(ev) THEN "C02_AdductElectronCount"
            ELSE IF "C02_TabulatedMassRounding" \in Devs /\ Dev_C02_TabulatedMassRounding(ev) THEN "C02_TabulatedMassRounding"
